@@ -80,6 +80,11 @@ CHECKS = {
     technique="TLA+ spec RpycCallTree: call trees spread over two peers evaluated by a message-passing state machine (stacks of activations, FIFO streams, re-entrant serve, routing by sequence number) vs. structural recursion EvalLocal, model-checked by TLC for all 3158 enumerated trees; every tree instantiated as real closures on two real Connections and compared with EvalLocal (result, exception class/args, per-node invocation counts, received arguments), with single-process execution as second oracle for the spec",
     text="TLC proves for every enumerated tree (depth<=3, fan-out<=2, all raise/catch placements) that the distributed evaluation equals local recursion and runs every reached node exactly once; each tree is executed on a real connection pair with callbacks nesting in both directions, argument shapes covering values, nested tuples, mixed tuples, references, keyword-only and mixed calls, and results returned by value and by reference; deeper/wider random trees are judged by single-process evaluation",
     note="quick tier executes a seeded third of the enumerated trees plus 60 random deeper ones; node bodies are pure apart from counters"),
+ "C20": dict(
+    spec="RpycFiles", design="5/C20",
+    technique="TLA+ spec RpycFiles: the chunked copy loop as a state machine model-checked by TLC for every chunk 1..4 and size 0..2*chunk+1, and the filtered directory walk as a function exported by TLC for every abstract tree x filter; every case materialised and pushed through the real classic.upload/download over a classic-mode connection with recursive byte-wise comparison; recorded read/write sizes trace-validated by TLC",
+    text="TLC proves prefix-copied / complete / read-count / termination of the copy loop and enumerates 6285 (tree, filter) cases with the destination each must produce (filter applied to base names at every level, empty files and directories, seven size classes relative to the chunk); the cases run through the real code with chunk sizes 1-3 (7 and 64000 in samples) in both directions, and the local read/write size sequences of real transfers are accepted by the copy-loop specification",
+    note="both 'machines' share one file system; quick tier executes a seeded sample of the walk table"),
 }
 NA = {}
 
